@@ -261,3 +261,198 @@ Proof.
   - cbn. rewrite IH; [reflexivity | intros Hin; apply H; right; exact Hin].
 Qed.
 
+
+(** ** under distinct names, what is lifted is what [Known.lifted_names] computes *)
+Lemma deps_kind_of_type_some g : forall ty n b,
+  deps_kind_of_type g ty = DGeneric (Some n) b ->
+  existsb (fun p => match gp_kind p with GType => String.eqb (gp_name p) n | _ => false end) (p_items (g_params g)) = true.
+Proof.
+  induction ty as [l m e IH|e IH|tr bs|q lead k f ts|ts]; intros n b H; cbn [deps_kind_of_type] in H; try discriminate; eauto.
+  destruct q; try discriminate. destruct lead; try discriminate.
+  destruct k as [|[|k]]; try discriminate.
+  destruct (existsb _ _) eqn:E in H; [|discriminate]. injection H as <- _. exact E.
+Qed.
+
+Lemma deps_kind_some nd s n b : deps_kind nd s = DGeneric (Some n) b ->
+  existsb (fun p => match gp_kind p with GType => String.eqb (gp_name p) n | _ => false end) (p_items (g_params (s_gen s))) = true.
+Proof.
+  unfold deps_kind. destruct nd; [discriminate|]. destruct (p_items (s_inputs s)) as [|[x r m c|x p ty] rest]; try discriminate.
+  apply deps_kind_of_type_some.
+Qed.
+
+Lemma remove_first_tparam_found name : forall l,
+  existsb (fun p => match gp_kind p with GType => String.eqb (gp_name p) name | _ => false end) l = true ->
+  exists pre p0 post, filter nonlife l = pre ++ p0 :: post /\ remove_first_tparam name l = pre ++ post /\ gp_name p0 = name.
+Proof.
+  induction l as [|p l IH]; intros H; [discriminate|]. cbn [existsb remove_first_tparam filter] in *. rewrite nonlife_kind.
+  destruct (gp_kind p) eqn:Ek.
+  - cbn [orb] in H. exact (IH H).
+  - destruct (String.eqb (gp_name p) name) eqn:En.
+    + exists [], p, (filter nonlife l). apply String.eqb_eq in En. auto.
+    + cbn [orb] in H. destruct (IH H) as (pre & p0 & post & E1 & E2 & E3). exists (p :: pre), p0, post. rewrite E1, E2. auto.
+  - cbn [orb] in H. destruct (IH H) as (pre & p0 & post & E1 & E2 & E3). exists (p :: pre), p0, post. rewrite E1, E2. auto.
+Qed.
+
+Lemma flat_names_nl l : flat_map (fun p => if is_life p then [] else [gp_name p]) l = map gp_name (filter nonlife l).
+Proof.
+  induction l as [|p l IH]; [reflexivity|]. cbn [flat_map filter]. unfold nonlife at 1.
+  destruct (is_life p); cbn [negb]; [exact IH | cbn [map app]; f_equal; exact IH].
+Qed.
+
+Lemma lifted_names_eq nd s : src_generics_nodup s = true -> lifted_names nd s = map gp_name (lifted_of nd s).
+Proof.
+  unfold src_generics_nodup. intros H. apply nodup_str_NoDup in H. fold nonlife in H. unfold lifted_names, lifted_of.
+  destruct (deps_kind nd s) as [[n|] b|t|] eqn:Ek.
+  - assert (Hgen : forall l, flat_map (fun p => if is_life p then [] else if String.eqb n (gp_name p) then [] else [gp_name p]) l
+                             = filter (fun x => negb (String.eqb n x)) (map gp_name (filter nonlife l))).
+    { induction l as [|p l IH]; [reflexivity|]. cbn [flat_map filter]. unfold nonlife at 1. destruct (is_life p); cbn [negb]; [exact IH|].
+      cbn [map filter]. destruct (String.eqb n (gp_name p)); cbn [negb app]; rewrite IH; reflexivity. }
+    rewrite Hgen.
+    destruct (remove_first_tparam_found n _ (deps_kind_some _ _ _ _ Ek)) as (pre & p0 & post & E1 & E2 & E3).
+    rewrite E1, E2 in *. rewrite !map_app in *. cbn [map] in *. rewrite E3 in *.
+    rewrite filter_app. cbn [filter]. rewrite String.eqb_refl. cbn [negb].
+    apply NoDup_remove_2 in H.
+    rewrite !filter_neq_notin; [reflexivity| |]; intros Hin; apply H; apply in_or_app; [right|left]; exact Hin.
+  - apply flat_names_nl.
+  - apply flat_names_nl.
+  - apply flat_names_nl.
+Qed.
+
+(** ** lists of functions *)
+Lemma analyze_all_params k o : forall sigs tg fns tg',
+  analyze_all k o tg sigs = Ok (fns, tg') ->
+  tg_params tg' = tg_params tg ++ flat_map (lifted_of (no_deps_value o)) sigs.
+Proof.
+  induction sigs as [|s sigs IH]; intros tg fns tg' H; cbn [analyze_all] in H.
+  - injection H as _ <-. rewrite app_nil_r. reflexivity.
+  - destruct (rbind_ok _ _ _ H) as [[tf tg1] [E H1]]. cbv beta in H1.
+    destruct (rbind_ok _ _ _ H1) as [[tfs tg2] [E2 H2]]. cbv beta in H2. injection H2 as _ <-.
+    destruct (analyze_inv _ _ _ _ _ _ E) as (deps & s' & Ha & _ & _).
+    rewrite (IH _ _ _ E2), (analyze_params _ _ _ _ _ Ha). cbn [flat_map]. rewrite <- app_assoc. reflexivity.
+Qed.
+
+Lemma c03_one_trait nd tp s x subs o : c03_one nd tp s (make_trait_fn_sig x subs o) = c03_one nd tp s x.
+Proof. unfold make_trait_fn_sig. destruct (s_async x && negb (contains_async_trait subs)); reflexivity. Qed.
+
+Lemma make_trait_fn_sig_gen x subs o : s_gen (make_trait_fn_sig x subs o) = s_gen x.
+Proof. unfold make_trait_fn_sig. destruct (s_async x && negb (contains_async_trait subs)); reflexivity. Qed.
+
+Lemma existsb_toks_in (t : toks) l : In t l -> existsb (toks_eqb t) l = true.
+Proof. intros H. apply existsb_exists. exists t. split; [exact H | apply toks_eqb_refl]. Qed.
+
+Lemma c03_carried_fn o tg s tf tg' tparams twhere out :
+  analyze RSelfRef o tg s = Ok (tf, tg') ->
+  s_gen out = s_gen (tf_sig tf) ->
+  incl (map gp_name (lifted_of (no_deps_value o) s)) (gparam_names tparams) ->
+  c03_carried (no_deps_value o) tparams twhere s out = true.
+Proof.
+  intros H Hg Hincl. destruct (c03_converted _ _ _ _ _ _ [] eq_refl H) as [_ Hw].
+  unfold c03_carried. apply andb_true_iff. split; apply forallb_forall.
+  - intros w Hin. destruct (Hw w Hin) as [->|Hin']; [reflexivity|]. apply orb_true_iff. right.
+    apply existsb_toks_in. rewrite map_app. apply in_or_app. right. rewrite Hg. apply in_map. exact Hin'.
+  - intros p Hin. destruct (is_life p) eqn:El; [reflexivity|]. cbn [orb].
+    destruct (lifted_covers (no_deps_value o) s p Hin El) as [->|Hn]; [reflexivity|].
+    apply orb_true_iff. right. apply str_mem_In. apply Hincl. exact Hn.
+Qed.
+
+Lemma c03_lists o subs : forall sigs tg fns tg' tparams tparams' twhere twhere',
+  analyze_all RSelfRef o tg sigs = Ok (fns, tg') ->
+  (forall s, In s sigs -> incl (map gp_name (lifted_of (no_deps_value o) s)) (gparam_names tparams)) ->
+  (forall s, In s sigs -> incl (map gp_name (lifted_of (no_deps_value o) s)) (gparam_names tparams')) ->
+  c03_all (no_deps_value o) tparams sigs (map (fun tf => make_trait_fn_sig (tf_sig tf) subs o) fns) = true /\
+  c03_all (no_deps_value o) tparams sigs (map tf_sig fns) = true /\
+  c03_carried_all (no_deps_value o) tparams twhere sigs (map (fun tf => make_trait_fn_sig (tf_sig tf) subs o) fns) = true /\
+  c03_carried_all (no_deps_value o) tparams' twhere' sigs (map tf_sig fns) = true.
+Proof.
+  induction sigs as [|s sigs IH]; intros tg fns tg' tparams tparams' twhere twhere' H Hi Hi'; cbn [analyze_all] in H.
+  - injection H as <- _. repeat split; reflexivity.
+  - destruct (rbind_ok _ _ _ H) as [[tf tg1] [E H1]]. cbv beta in H1.
+    destruct (rbind_ok _ _ _ H1) as [[tfs tg2] [E2 H2]]. cbv beta in H2. injection H2 as <- _.
+    destruct (IH _ _ _ tparams tparams' twhere twhere' E2 (fun x Hx => Hi x (or_intror Hx)) (fun x Hx => Hi' x (or_intror Hx))) as (I1 & I2 & I3 & I4).
+    destruct (c03_converted _ _ _ _ _ _ tparams eq_refl E) as [C1 _].
+    cbn [map c03_all c03_carried_all]. rewrite c03_one_trait, C1, I1, I2, I3, I4.
+    rewrite (c03_carried_fn _ _ _ _ _ tparams twhere _ E (make_trait_fn_sig_gen _ _ _) (Hi s (or_introl eq_refl))).
+    rewrite (c03_carried_fn _ _ _ _ _ tparams' twhere' _ E eq_refl (Hi' s (or_introl eq_refl))).
+    repeat split; reflexivity.
+Qed.
+
+Lemma incl_flat_map {A B} (f : A -> list B) l x : In x l -> incl (f x) (flat_map f l).
+Proof. intros H y Hy. apply in_flat_map. exists x. auto. Qed.
+
+Lemma gparam_names_app a b : gparam_names (a ++ b) = gparam_names a ++ gparam_names b.
+Proof. unfold gparam_names. apply map_app. Qed.
+
+Lemma gparam_names_flat (f : sig -> list gparam) l : gparam_names (flat_map f l) = flat_map (fun s => map gp_name (f s)) l.
+Proof. unfold gparam_names. induction l as [|x l IH]; [reflexivity|]. cbn [flat_map]. rewrite map_app, IH. reflexivity. Qed.
+
+Lemma t_gen_params o ti mode subs lit v name tg colon supers fns im :
+  p_items (g_params (t_gen (gen_trait_def o ti mode subs lit v name tg colon supers fns im))) = tg_params tg.
+Proof. reflexivity. Qed.
+
+Lemma lifted_names_flat nd : forall sigs, forallb src_generics_nodup sigs = true ->
+  flat_map (lifted_names nd) sigs = flat_map (fun s => map gp_name (lifted_of nd s)) sigs.
+Proof.
+  induction sigs as [|s sigs IH]; intros H; [reflexivity|]. cbn [forallb] in H. apply andb_true_iff in H as [H1 H2].
+  cbn [flat_map]. rewrite (lifted_names_eq nd s H1), (IH H2). reflexivity.
+Qed.
+
+(** ** the view *)
+Lemma c03_view v attr i items :
+  expand_items v attr i = Ok items -> known_C03 (mkCtx v attr i) = false -> good (view_C03 (mkCtx v attr i) items).
+Proof.
+  intros H Hk. destruct i as [h s body|h|h t|h|h tp st body sigs sf|h|h name body sigs sf|h|]; try discriminate H.
+  - (* fn *)
+    destruct (expand_fn_inv _ _ _ _ _ _ H) as (a & tf & tg & mode & ib & Ha & Hz & _ & Hib & ->).
+    destruct (gen_impl_block_fns _ _ _ _ _ _ _ _ _ Hib) as (argss & Fa & Hfns & _ & _ & _ & Hgen & _).
+    unfold view_C03, good, fn_opts. cbn [x_input x_attr x_variant source_fns]. rewrite parts_fn, Ha.
+    fold (merged_sig h s). cbn [map forallb].
+    destruct (src_generics_nodup (merged_sig h s)) eqn:Hnd; cbn [negb andb]; [|cbn; discriminate].
+    cbn [decided v_app v_det v_holds]. intros _. split; [reflexivity|].
+    rewrite trait_sigs_gen_trait_def, Hfns, t_gen_params, Hgen.
+    inversion Fa as [|? args ? ? Hc Fa']; subst. inversion Fa'; subst. cbn [map combine snd].
+    set (o := apply_variant v (fa_opts a)) in *.
+    assert (Hall : analyze_all RSelfRef o empty_tg [merged_sig h s] = Ok ([tf], tg)) by (cbn; rewrite Hz; reflexivity).
+    pose proof (analyze_all_params _ _ _ _ _ _ Hall) as Hp. cbn [empty_tg tg_params app flat_map] in Hp. rewrite app_nil_r in Hp.
+    assert (Hi : forall s0, In s0 [merged_sig h s] -> incl (map gp_name (lifted_of (no_deps_value o) s0)) (gparam_names (tg_params tg))).
+    { intros s0 [<-|[]]. rewrite Hp. apply incl_refl. }
+    assert (Hi' : forall s0, In s0 [merged_sig h s] -> incl (map gp_name (lifted_of (no_deps_value o) s0))
+                    (gparam_names (p_items (p_of_list (impl_params (with_t_of mode) (has_any_self_by_value [tf]) (tg_params tg)))))).
+    { intros s0 Hs0. cbn [p_of_list p_items]. unfold impl_params. rewrite gparam_names_app. apply incl_appr. exact (Hi s0 Hs0). }
+    destruct (c03_lists o (h_attrs h) _ _ _ _ (tg_params tg) _ (where_items (t_gen (gen_trait_def o TPlain mode (h_attrs h) None (fa_vis a) (fa_trait a) tg false pempty [tf] MSingleFn)))
+                (where_items (mkGen true (p_of_list (impl_params (with_t_of mode) (has_any_self_by_value [tf]) (tg_params tg))) (where_of_list (impl_where mode INone [tf] tg))))
+                Hall Hi Hi') as (I1 & I2 & I3 & I4).
+    cbn [map] in I1, I2, I3, I4. cbn [g_params]. rewrite I1, I2, I3, I4. cbn [andb].
+    rewrite Hp. apply nodup_str_NoDup. apply lifted_nodup. exact Hnd.
+  - unfold view_C03, good. cbn. discriminate.
+  - unfold view_C03, good. cbn. discriminate.
+  - (* mod *)
+    destruct (expand_mod_inv _ _ _ _ _ _ _ _ H) as (_ & bitems & fl & a & fns0 & tg & mode & ib & Hs & Ha & Hz & _ & Hib & ->).
+    destruct (gen_impl_block_fns _ _ _ _ _ _ _ _ _ Hib) as (argss & Fa & Hfns & _ & _ & _ & Hgen & _).
+    unfold known_C03, fn_opts in Hk. cbn [x_input x_attr x_variant source_fns] in Hk. rewrite Hs, Ha in Hk.
+    unfold view_C03, good, fn_opts. cbn [x_input x_attr x_variant source_fns]. rewrite Hs, parts_mod, Ha.
+    set (o := apply_variant v (fa_opts a)) in *.
+    rewrite map_sig_of_body_fns.
+    destruct (forallb src_generics_nodup (map sig_of (body_fns bitems))) eqn:Hnd; cbn [negb]; [|cbn; discriminate].
+    cbn [decided v_app v_det v_holds]. intros _. split; [reflexivity|].
+    rewrite trait_sigs_gen_trait_def, Hfns, t_gen_params, Hgen.
+    rewrite impl_fns_sigs; [|apply (Forall2_length' _ _ _ Fa)|intros tf args; reflexivity].
+    rewrite map_map. cbn [snd].
+    rewrite <- (map_map tf_sig (fun s => make_trait_fn_sig s (h_attrs h) o)).
+    rewrite with_cfg_attrs_sigs, map_map.
+    pose proof (analyze_all_params _ _ _ _ _ _ Hz) as Hp. cbn [empty_tg tg_params app] in Hp.
+    assert (Hi : forall s0, In s0 (map sig_of (body_fns bitems)) -> incl (map gp_name (lifted_of (no_deps_value o) s0)) (gparam_names (tg_params tg))).
+    { intros s0 Hs0. rewrite Hp, gparam_names_flat. exact (incl_flat_map (fun s => map gp_name (lifted_of (no_deps_value o) s)) _ _ Hs0). }
+    assert (Hi' : forall s0, In s0 (map sig_of (body_fns bitems)) -> incl (map gp_name (lifted_of (no_deps_value o) s0))
+                    (gparam_names (p_items (p_of_list (impl_params (with_t_of mode) (has_any_self_by_value (with_cfg_attrs fns0 (body_fns bitems))) (tg_params tg)))))).
+    { intros s0 Hs0. cbn [p_of_list p_items]. unfold impl_params. rewrite gparam_names_app. apply incl_appr. exact (Hi s0 Hs0). }
+    match goal with |- context [c03_carried_all _ (tg_params tg) (where_items ?g1) _ _] =>
+      match goal with |- context [c03_carried_all _ (p_items _) (where_items ?g2) _ _] =>
+        destruct (c03_lists o (h_attrs h) _ _ _ _ (tg_params tg) _ (where_items g1) (where_items g2) Hz Hi Hi') as (I1 & I2 & I3 & I4)
+      end
+    end.
+    cbn [g_params]. rewrite I1, I2, I3, I4. cbn [andb].
+    rewrite Hp, gparam_names_flat.
+    apply negb_false_iff in Hk.
+    rewrite <- (lifted_names_flat _ _ Hnd).
+    rewrite <- Hk. f_equal. clear. induction (body_fns bitems) as [|[[[x y] z] w] l IH]; [reflexivity|]. cbn [flat_map map sig_of]. rewrite IH. reflexivity.
+Qed.
